@@ -1954,35 +1954,35 @@ package spec
 //@   property C15, C05
 //@   requires extOnly(p.Extensions)
 //@   requires (forall k string :: (knownKey("CommonValidations", k) || knownKey("SimpleSchema", k) || knownKey("ParamProps", k)) ==> !isExtKey(k) && k != "$ref") && !isExtKey("$ref")
-//@   ensures  [C15] extension-member @@ result2 != nil && oCnt(jv(result2), token) > 0 && isExtKey(token) ==> result1 == nil && holds(result0, "*interface{}") && encOf(*asPtr(result0, "*interface{}")) == oVal(jv(result2), token)
-//@   ensures  [C15] keyword-member @@ result2 != nil && oCnt(jv(result2), token) > 0 && !isExtKey(token) && token != "$ref" ==> result1 == nil && encOf(result0) == oVal(jv(result2), token)
+//@   ensures  [C15,C05] extension-member @@ result2 != nil && oCnt(jv(result2), token) > 0 && isExtKey(token) ==> result1 == nil && holds(result0, "*interface{}") && encOf(*asPtr(result0, "*interface{}")) == oVal(jv(result2), token)
+//@   ensures  [C15,C05] keyword-member @@ result2 != nil && oCnt(jv(result2), token) > 0 && !isExtKey(token) && token != "$ref" ==> result1 == nil && encOf(result0) == oVal(jv(result2), token)
 
 //@ func verifLemmaHeaderLookup
 //@   property C15, C05
 //@   requires extOnly(h.Extensions)
 //@   requires (forall k string :: (knownKey("CommonValidations", k) || knownKey("SimpleSchema", k) || knownKey("HeaderProps", k)) ==> !isExtKey(k))
-//@   ensures  [C15] extension-member @@ result2 != nil && oCnt(jv(result2), token) > 0 && isExtKey(token) ==> result1 == nil && holds(result0, "*interface{}") && encOf(*asPtr(result0, "*interface{}")) == oVal(jv(result2), token)
-//@   ensures  [C15] keyword-member @@ result2 != nil && oCnt(jv(result2), token) > 0 && !isExtKey(token) ==> result1 == nil && encOf(result0) == oVal(jv(result2), token)
+//@   ensures  [C15,C05] extension-member @@ result2 != nil && oCnt(jv(result2), token) > 0 && isExtKey(token) ==> result1 == nil && holds(result0, "*interface{}") && encOf(*asPtr(result0, "*interface{}")) == oVal(jv(result2), token)
+//@   ensures  [C15,C05] keyword-member @@ result2 != nil && oCnt(jv(result2), token) > 0 && !isExtKey(token) ==> result1 == nil && encOf(result0) == oVal(jv(result2), token)
 
 //@ func verifLemmaItemsLookup
 //@   property C15, C05
 //@   requires extOnly(i.Extensions)
 //@   requires (forall k string :: (knownKey("CommonValidations", k) || knownKey("SimpleSchema", k)) ==> !isExtKey(k) && k != "$ref") && !isExtKey("$ref")
-//@   ensures  [C15] extension-member @@ result2 != nil && oCnt(jv(result2), token) > 0 && isExtKey(token) ==> result1 == nil && holds(result0, "*interface{}") && encOf(*asPtr(result0, "*interface{}")) == oVal(jv(result2), token)
-//@   ensures  [C15] keyword-member @@ result2 != nil && oCnt(jv(result2), token) > 0 && !isExtKey(token) && token != "$ref" ==> result1 == nil && encOf(result0) == oVal(jv(result2), token)
+//@   ensures  [C15,C05] extension-member @@ result2 != nil && oCnt(jv(result2), token) > 0 && isExtKey(token) ==> result1 == nil && holds(result0, "*interface{}") && encOf(*asPtr(result0, "*interface{}")) == oVal(jv(result2), token)
+//@   ensures  [C15,C05] keyword-member @@ result2 != nil && oCnt(jv(result2), token) > 0 && !isExtKey(token) && token != "$ref" ==> result1 == nil && encOf(result0) == oVal(jv(result2), token)
 
 //@ func verifLemmaPathsLookup
 //@   property C15, C05
 //@   requires extOnly(p.Extensions) && (forall k string :: has(p.Paths, k) ==> isPathKey(k))
-//@   ensures  [C15] extension-member @@ result2 != nil && oCnt(jv(result2), token) > 0 && isExtKey(token) ==> result1 == nil && holds(result0, "*interface{}") && encOf(*asPtr(result0, "*interface{}")) == oVal(jv(result2), token)
-//@   ensures  [C15] path-member @@ result2 != nil && oCnt(jv(result2), token) > 0 && !isExtKey(token) ==> result1 == nil && holds(result0, "*PathItem") && encOf(*asPtr(result0, "*PathItem")) == oVal(jv(result2), token)
+//@   ensures  [C15,C05] extension-member @@ result2 != nil && oCnt(jv(result2), token) > 0 && isExtKey(token) ==> result1 == nil && holds(result0, "*interface{}") && encOf(*asPtr(result0, "*interface{}")) == oVal(jv(result2), token)
+//@   ensures  [C15,C05] path-member @@ result2 != nil && oCnt(jv(result2), token) > 0 && !isExtKey(token) ==> result1 == nil && holds(result0, "*PathItem") && encOf(*asPtr(result0, "*PathItem")) == oVal(jv(result2), token)
 
 //@ func verifLemmaResponsesLookup
 //@   property C15, C05
 //@   requires extOnly(r.Extensions)
-//@   ensures  [C15] extension-member @@ result2 != nil && oCnt(jv(result2), token) > 0 && isExtKey(token) ==> result1 == nil && holds(result0, "*interface{}") && encOf(*asPtr(result0, "*interface{}")) == oVal(jv(result2), token)
-//@   ensures  [C15] default-member @@ result2 != nil && oCnt(jv(result2), token) > 0 && token == "default" ==> result1 == nil && holds(result0, "*Response") && encOf(*asPtr(result0, "*Response")) == oVal(jv(result2), token)
-//@   ensures  [C15] status-code-member @@ result2 != nil && oCnt(jv(result2), token) > 0 && !isExtKey(token) && token != "default" ==> result1 == nil && holds(result0, "Response") && encOf(asValue(result0, "Response")) == oVal(jv(result2), token)
+//@   ensures  [C15,C05] extension-member @@ result2 != nil && oCnt(jv(result2), token) > 0 && isExtKey(token) ==> result1 == nil && holds(result0, "*interface{}") && encOf(*asPtr(result0, "*interface{}")) == oVal(jv(result2), token)
+//@   ensures  [C15,C05] default-member @@ result2 != nil && oCnt(jv(result2), token) > 0 && token == "default" ==> result1 == nil && holds(result0, "*Response") && encOf(*asPtr(result0, "*Response")) == oVal(jv(result2), token)
+//@   ensures  [C15,C05] status-code-member @@ result2 != nil && oCnt(jv(result2), token) > 0 && !isExtKey(token) && token != "default" ==> result1 == nil && holds(result0, "Response") && encOf(asValue(result0, "Response")) == oVal(jv(result2), token)
 //@   ensures  [C15,C05] absent-member-is-error @@ result2 != nil && oCnt(jv(result2), token) == 0 && token != "default" && (atoiOK(token) ==> itoa(atoi(token)) == token) ==> result1 != nil
 
 // ---- gob transport of a reference (C13, C14): the custom codec ships the JSON bytes through gob
@@ -2098,50 +2098,50 @@ package spec
 //@   property C15, C05
 //@   requires extOnly(s.Extensions)
 //@   requires forall k string :: knownKey("SwaggerProps", k) ==> !isExtKey(k)
-//@   ensures  [C15] extension-member @@ result2 != nil && oCnt(jv(result2), token) > 0 && isExtKey(token) ==> extMember(result0, result1, jv(result2), token)
-//@   ensures  [C15] keyword-member @@ result2 != nil && oCnt(jv(result2), token) > 0 && !isExtKey(token) ==> result1 == nil && encOf(result0) == oVal(jv(result2), token)
+//@   ensures  [C15,C05] extension-member @@ result2 != nil && oCnt(jv(result2), token) > 0 && isExtKey(token) ==> extMember(result0, result1, jv(result2), token)
+//@   ensures  [C15,C05] keyword-member @@ result2 != nil && oCnt(jv(result2), token) > 0 && !isExtKey(token) ==> result1 == nil && encOf(result0) == oVal(jv(result2), token)
 
 //@ func verifLemmaPathItemLookup
 //@   property C15, C05
 //@   requires extOnly(p.Extensions)
 //@   requires (forall k string :: knownKey("PathItemProps", k) ==> !isExtKey(k) && k != "$ref") && !isExtKey("$ref")
-//@   ensures  [C15] extension-member @@ result2 != nil && oCnt(jv(result2), token) > 0 && isExtKey(token) ==> extMember(result0, result1, jv(result2), token)
-//@   ensures  [C15] keyword-member @@ result2 != nil && oCnt(jv(result2), token) > 0 && !isExtKey(token) && token != "$ref" ==> result1 == nil && encOf(result0) == oVal(jv(result2), token)
+//@   ensures  [C15,C05] extension-member @@ result2 != nil && oCnt(jv(result2), token) > 0 && isExtKey(token) ==> extMember(result0, result1, jv(result2), token)
+//@   ensures  [C15,C05] keyword-member @@ result2 != nil && oCnt(jv(result2), token) > 0 && !isExtKey(token) && token != "$ref" ==> result1 == nil && encOf(result0) == oVal(jv(result2), token)
 
 //@ func verifLemmaOperationLookup
 //@   property C15, C05
 //@   requires extOnly(o.Extensions)
 //@   requires forall k string :: knownKey("OperationProps", k) ==> !isExtKey(k)
-//@   ensures  [C15] extension-member @@ result2 != nil && oCnt(jv(result2), token) > 0 && isExtKey(token) ==> extMember(result0, result1, jv(result2), token)
-//@   ensures  [C15] keyword-member @@ result2 != nil && oCnt(jv(result2), token) > 0 && !isExtKey(token) ==> result1 == nil && encOf(result0) == oVal(jv(result2), token)
+//@   ensures  [C15,C05] extension-member @@ result2 != nil && oCnt(jv(result2), token) > 0 && isExtKey(token) ==> extMember(result0, result1, jv(result2), token)
+//@   ensures  [C15,C05] keyword-member @@ result2 != nil && oCnt(jv(result2), token) > 0 && !isExtKey(token) ==> result1 == nil && encOf(result0) == oVal(jv(result2), token)
 
 //@ func verifLemmaResponseLookup
 //@   property C15, C05
 //@   requires extOnly(r.Extensions)
 //@   requires (forall k string :: knownKey("ResponseProps", k) ==> !isExtKey(k) && k != "$ref") && !isExtKey("$ref")
-//@   ensures  [C15] extension-member @@ result2 != nil && oCnt(jv(result2), token) > 0 && isExtKey(token) ==> extMember(result0, result1, jv(result2), token)
-//@   ensures  [C15] keyword-member @@ result2 != nil && oCnt(jv(result2), token) > 0 && !isExtKey(token) && token != "$ref" ==> result1 == nil && encOf(result0) == oVal(jv(result2), token)
+//@   ensures  [C15,C05] extension-member @@ result2 != nil && oCnt(jv(result2), token) > 0 && isExtKey(token) ==> extMember(result0, result1, jv(result2), token)
+//@   ensures  [C15,C05] keyword-member @@ result2 != nil && oCnt(jv(result2), token) > 0 && !isExtKey(token) && token != "$ref" ==> result1 == nil && encOf(result0) == oVal(jv(result2), token)
 
 //@ func verifLemmaInfoLookup
 //@   property C15, C05
 //@   requires extOnly(i.Extensions)
 //@   requires forall k string :: knownKey("InfoProps", k) ==> !isExtKey(k)
-//@   ensures  [C15] extension-member @@ result2 != nil && oCnt(jv(result2), token) > 0 && isExtKey(token) ==> extMember(result0, result1, jv(result2), token)
-//@   ensures  [C15] keyword-member @@ result2 != nil && oCnt(jv(result2), token) > 0 && !isExtKey(token) ==> result1 == nil && encOf(result0) == oVal(jv(result2), token)
+//@   ensures  [C15,C05] extension-member @@ result2 != nil && oCnt(jv(result2), token) > 0 && isExtKey(token) ==> extMember(result0, result1, jv(result2), token)
+//@   ensures  [C15,C05] keyword-member @@ result2 != nil && oCnt(jv(result2), token) > 0 && !isExtKey(token) ==> result1 == nil && encOf(result0) == oVal(jv(result2), token)
 
 //@ func verifLemmaSecuritySchemeLookup
 //@   property C15, C05
 //@   requires extOnly(s.Extensions)
 //@   requires forall k string :: knownKey("SecuritySchemeProps", k) ==> !isExtKey(k)
-//@   ensures  [C15] extension-member @@ result2 != nil && oCnt(jv(result2), token) > 0 && isExtKey(token) ==> extMember(result0, result1, jv(result2), token)
-//@   ensures  [C15] keyword-member @@ result2 != nil && oCnt(jv(result2), token) > 0 && !isExtKey(token) ==> result1 == nil && encOf(result0) == oVal(jv(result2), token)
+//@   ensures  [C15,C05] extension-member @@ result2 != nil && oCnt(jv(result2), token) > 0 && isExtKey(token) ==> extMember(result0, result1, jv(result2), token)
+//@   ensures  [C15,C05] keyword-member @@ result2 != nil && oCnt(jv(result2), token) > 0 && !isExtKey(token) ==> result1 == nil && encOf(result0) == oVal(jv(result2), token)
 
 //@ func verifLemmaTagLookup
 //@   property C15, C05
 //@   requires extOnly(t.Extensions)
 //@   requires forall k string :: knownKey("TagProps", k) ==> !isExtKey(k)
-//@   ensures  [C15] extension-member @@ result2 != nil && oCnt(jv(result2), token) > 0 && isExtKey(token) ==> extMember(result0, result1, jv(result2), token)
-//@   ensures  [C15] keyword-member @@ result2 != nil && oCnt(jv(result2), token) > 0 && !isExtKey(token) ==> result1 == nil && encOf(result0) == oVal(jv(result2), token)
+//@   ensures  [C15,C05] extension-member @@ result2 != nil && oCnt(jv(result2), token) > 0 && isExtKey(token) ==> extMember(result0, result1, jv(result2), token)
+//@   ensures  [C15,C05] keyword-member @@ result2 != nil && oCnt(jv(result2), token) > 0 && !isExtKey(token) ==> result1 == nil && encOf(result0) == oVal(jv(result2), token)
 
 // a decoded schema keeps its unknown keywords apart from keywords, extensions, $ref and $schema
 //@ define extraOnly(m map[string]interface{}) bool = forall k string :: m != nil && has(m, k) ==> !isExtKey(k) && !schemaKey(k) && k != "$ref" && k != "$schema"
@@ -2149,9 +2149,9 @@ package spec
 //@   property C15, C05
 //@   requires extOnly(s.Extensions) && extraOnly(s.ExtraProps)
 //@   requires (forall k string :: schemaKey(k) ==> !isExtKey(k) && k != "$ref" && k != "$schema") && !isExtKey("$ref") && !isExtKey("$schema")
-//@   ensures  [C15] extension-member @@ result2 != nil && oCnt(jv(result2), token) > 0 && isExtKey(token) ==> extMember(result0, result1, jv(result2), token)
-//@   ensures  [C15] unknown-keyword-member @@ result2 != nil && oCnt(jv(result2), token) > 0 && !isExtKey(token) && !schemaKey(token) && token != "$ref" && token != "$schema" ==> extMember(result0, result1, jv(result2), token)
-//@   ensures  [C15] keyword-member @@ result2 != nil && oCnt(jv(result2), token) > 0 && schemaKey(token) ==> result1 == nil && encOf(result0) == oVal(jv(result2), token)
+//@   ensures  [C15,C05] extension-member @@ result2 != nil && oCnt(jv(result2), token) > 0 && isExtKey(token) ==> extMember(result0, result1, jv(result2), token)
+//@   ensures  [C15,C05] unknown-keyword-member @@ result2 != nil && oCnt(jv(result2), token) > 0 && !isExtKey(token) && !schemaKey(token) && token != "$ref" && token != "$schema" ==> extMember(result0, result1, jv(result2), token)
+//@   ensures  [C15,C05] keyword-member @@ result2 != nil && oCnt(jv(result2), token) > 0 && schemaKey(token) ==> result1 == nil && encOf(result0) == oVal(jv(result2), token)
 
 // ---- the root object, and the two plain kinds without codecs of their own
 //@ func verifLemmaSwaggerRoundTrip
